@@ -9,7 +9,7 @@ def run(ctx):
     L.rule_order(ctx, "R6")
     from .c08 import model_table
     model_table(ctx, "R7")
-    L.rule_model(ctx, "R8")
+    L.rule_model(ctx, "R8", tier_cells=L.lru_grid() if ctx.tier == "thorough" else None)
     ctx.rule("R9", "special hosts (kept as one stem): SPECIAL_HOSTS_RE accepts exactly localhost / dotted quads (optional port) / colon-bearing hex literals as whole strings")
     from .common_url import rule_special_hosts
     rule_special_hosts(ctx, "R9")
